@@ -75,7 +75,7 @@ Params(k) ==
                         [kp |-> RI(2), ki |-> RI(4), kd |-> RI(1)],
                         [kp |-> RI(4), ki |-> RI(1), kd |-> RI(2)] >>] : ck \in 0..2}
     [] k \in {"EWMA", "EWMAQ"} ->
-         {[s |-> x] : x \in (IF Rich THEN {Zero, R(1, 2), R(3, 4), One} ELSE {R(1, 2), R(3, 4)})}
+         {[s |-> x] : x \in (IF Rich THEN {Zero, R(1, 2), R(3, 4), One} ELSE {R(1, 2), R(3, 4), One})}
     [] k \in {"MA", "MAQ"} ->
          {[w |-> x] : x \in (IF Rich THEN {1, 2, 3, 8} ELSE {2, 3})}
     [] UnitGrid /\ k \in {"Integral", "Derivative", "AccToState", "VelToState", "PosToState"} ->
